@@ -400,8 +400,9 @@ def native_replay(ob, vals, outdir, extra_defs=(), entry=None):
 
 
 # ----------------------------------------------------------------------------
-def run_obligation(ob, work, extra_defs=(), want_trace_for=None):
-    """Compile + decide one obligation. Returns a result dict."""
+def run_obligation(ob, work, extra_defs=(), want_trace_for=None, only_entries=None):
+    """Compile + decide one obligation. Returns a result dict.
+    only_entries: indices of the scenario entry points to run (re-run of the failing scenarios of a table obligation)."""
     res = {"name": ob.name, "harness": ob.harness, "defs": ob.defs + list(extra_defs), "bounds": ob.bounds,
            "status": "error", "detail": "", "failed": [], "props": {}, "stats": {}, "wall_s": 0.0}
     t0 = time.time()
@@ -412,7 +413,10 @@ def run_obligation(ob, work, extra_defs=(), want_trace_for=None):
             res["detail"] = "goto-cc failed: " + err
             return res
         res["gb"] = gb
-        entries = ["harness_%d" % i for i in range(ob.n_entries)] if ob.n_entries else [None]
+        idxs = list(range(ob.n_entries)) if ob.n_entries else []
+        if ob.n_entries and only_entries is not None:
+            idxs = sorted(set(i for i in only_entries if 0 <= i < ob.n_entries))
+        entries = ["harness_%d" % i for i in idxs] if ob.n_entries else [None]
         props, stats = [], None
         res["cbmc_s"] = 0.0
         outputs = []
@@ -421,18 +425,18 @@ def run_obligation(ob, work, extra_defs=(), want_trace_for=None):
             script = os.path.join(work, ob.name + ("-kf" if extra_defs else "") + "-run.sh")
             base = cbmc_cmd(ob, gb, entry="@ENTRY@")
             with open(script, "w") as f:
-                f.write("#!/bin/sh\nfor i in $(seq 0 %d); do\n" % (ob.n_entries - 1))
+                f.write("#!/bin/sh\nfor i in %s; do\n" % " ".join(str(i) for i in idxs))
                 f.write("  timeout %d " % ob.timeout + " ".join("'%s'" % c for c in base).replace("@ENTRY@", "harness_$i").replace("'harness_$i'", "\"harness_$i\"") +
                         " > '%s.out.'$i 2> '%s.err.'$i\n" % (gb, gb))
                 f.write("  echo $? > '%s.rc.'$i\ndone\n" % gb)
             res["cmd"] = " ".join(base[:1] + ["<gb>"] + base[2:])
-            rc, out, errt, dt, to = run(["sh", script], timeout=ob.timeout * ob.n_entries + 60, mem_gb=ob.mem_gb)
+            rc, out, errt, dt, to = run(["sh", script], timeout=ob.timeout * len(idxs) + 60, mem_gb=ob.mem_gb)
             res["cbmc_s"] = round(dt, 2)
             if to:
                 res["status"] = "timeout"
                 res["detail"] = "cbmc entry loop exceeded its budget"
                 return res
-            for i, ent in enumerate(entries):
+            for i, ent in zip(idxs, entries):
                 try:
                     o = open("%s.out.%d" % (gb, i)).read()
                     e = open("%s.err.%d" % (gb, i)).read()
@@ -655,6 +659,20 @@ def run_check(pid, tier, obligations, meta):
                 results.append((ob, r))
                 print("[%s] %-40s %-8s %6.1fs  %s" % (pid, ob.name, r["status"], r["wall_s"], r["detail"][:200]), flush=True)
         final = []
+        # failing obligations that name known findings are re-decided with those findings assumed away (in parallel)
+        reruns = {}
+        with ThreadPoolExecutor(max_workers=JOBS) as ex:
+            for ob, r in results:
+                if r["status"] == "fail":
+                    kfs = [k for k in ob.kf if k in known and known[k].get("property") == pid]
+                    if kfs:
+                        defs = [known[k]["define"] for k in kfs if known[k].get("define")]
+                        only = None
+                        if ob.n_entries:
+                            # scenarios that passed without the exclusion pass with it (the define only assumes
+                            # behaviours away): re-decide the failing scenarios only
+                            only = [int(f["entry"].rsplit("_", 1)[1]) for f in r["failed"] if f.get("entry")]
+                        reruns[ob.name] = ex.submit(run_obligation, ob, work, extra_defs=defs, only_entries=only)
         for ob, r in results:
             if r["status"] == "fail":
                 # is it (entirely) explained by findings listed in known_findings.txt ?
@@ -662,7 +680,7 @@ def run_check(pid, tier, obligations, meta):
                 explained = False
                 if kfs:
                     defs = [known[k]["define"] for k in kfs if known[k].get("define")]
-                    r2 = run_obligation(ob, work, extra_defs=defs)
+                    r2 = reruns[ob.name].result()
                     print("[%s] %-40s %-8s %6.1fs  (re-run with known findings excluded: %s)" %
                           (pid, ob.name, r2["status"], r2["wall_s"], ",".join(kfs)), flush=True)
                     r["excluded_rerun"] = {"status": r2["status"], "defs": defs, "wall_s": r2["wall_s"], "detail": r2["detail"]}
